@@ -11,7 +11,10 @@ orders): they must return, with exactly the children the caller may list, in sib
 Build configurations: the repository compiles in two configurations (default; -tags docker = production). A second driver is built
 with `-tags "verif docker"` and the whole decision table (every entry point, summaries included), the degenerate listings and a
 sample of the content / class-listing cases run there too, under the same predicates; the compile-time options a summary depends
-on are read from both binaries and compared with what gosync translated for that build (Gen/Consts_default.v, Gen/Consts_docker.v)."""
+on are read from both binaries and compared with what gosync translated for that build (Gen/Consts_default.v, Gen/Consts_docker.v).
+Board life cycle (op 11): the moderator cache is kept per board slot; histories of ptt.NewBoard / removal (blank record + reload) / reload
+run in one driver process on both builds with every pool user asking the entry points in between: each answer must be the rule applied
+to the header the board has now (slot used before or not), and equal the extracted history model (theorem C07_life_cycle)."""
 import json, os, re, sys
 from concurrent.futures import ThreadPoolExecutor
 sys.path.insert(0, os.path.join(os.path.dirname(os.path.abspath(__file__)), "..", "lib"))
@@ -260,6 +263,127 @@ def parse_class_listings(f):
     return lists, chain
 
 
+# ---------------------------------------------------------------- board life cycle (op 11)
+LIFE_EPS = ["ptt.IsBoardValidUser", "ptt.LoadGeneralArticles", "ptt.LoadBottomArticles", "ptt.FindArticleStartIdx", "ptt.ReadPost", "ptt.ReadPostTemplate",
+            "bbs.IsBoardValidUser", "bbs.LoadGeneralArticles", "ptt.LoadBoardsByBids", "ptt.LoadBoardSummary"]
+LIFE_POOL = ["CodingMan", "pichu", "Kahou2", "chhsiao123"]
+LIFE_BOARDS = 10
+MAX_BMS = 4
+LIFE_LEGEND = ("case: 11|step|...; steps: `1 n attr level m...` ptt.NewBoard of board vfb<n> (attribute word, level word, moderators = pool users m...: %s), "
+               "`2 n` board n removed (its .BRD record blanked, boards reloaded), `3` cache.ReloadBCache, `4 n u level over18` pool user u (planted with that level word) asks about board n; "
+               "answer: status, then per step: create 0 / 3 name exists, remove 0 / 4 no such board, reload 0, query: found, then %s "
+               "(article entry points: 1 not refused, 0 refused; listing: 0 absent, 1 with title, 2 without)" % (", ".join("%d=%s" % (k, n) for k, n in enumerate(LIFE_POOL)), ", ".join(LIFE_EPS)))
+
+
+def life_reference(steps):
+    """the answer line of a history, written from the property text: a query about a board is answered by the rule applied to the
+    caller and to the header the board has NOW (its own moderators, attributes, level) - whatever was in its slot before.
+    Returns (expected tokens, per-token meta)."""
+    live, out, meta = {}, ["0"], [None]
+    past_mods = set()
+    free = 0
+    for st in steps:
+        if st[0] == 1:
+            n, attr, level, ms = st[1], st[2], st[3], list(st[4:])
+            if n in live:
+                out.append("3")
+            else:
+                if attr & B["HIDE"]:                  # NewBoard creates a hidden board without restricted mask and level
+                    attr, level = attr & ~B["POSTMASK"], 0
+                live[n] = (ms, attr, level, free > 0)
+                free = max(0, free - 1)
+                out.append("0")
+            meta.append(("step", st))
+        elif st[0] == 2:
+            if st[1] in live:
+                past_mods |= set(live[st[1]][0][:MAX_BMS])
+                del live[st[1]]
+                free += 1
+                out.append("0")
+            else:
+                out.append("4")
+            meta.append(("step", st))
+        elif st[0] == 3:
+            out.append("0")
+            meta.append(("step", st))
+        else:
+            n, u, ul, o18 = st[1:]
+            if n not in live:
+                out += ["0"] + ["-1"] * 10
+                meta += [("found", st)] + [("absent", st)] * 10
+                continue
+            ms, attr, level, reused = live[n]
+            r = abs_row(ul, o18, u in ms[:MAX_BMS], False, u in ms, attr, level)
+            mr, ml = spec_may_read(r), spec_may_list(r)
+            out += ["1"] + ["1" if mr else "0"] * 8 + ["1" if ml else "0", "1" if ml else "2"]
+            info = {"board": n, "user": u, "moderators": ms, "attr": attr, "level": level, "slot_reused": reused, "may_read": mr, "may_list": ml,
+                    "own_moderator": u in ms[:MAX_BMS], "moderated_a_removed_board": u in past_mods, "row": r}
+            meta += [("found", st)] + [(name, st, info) for name in LIFE_EPS]
+    return out, meta
+
+
+def life_line(steps):
+    return "11|" + "|".join(" ".join(str(x) for x in st) for st in steps)
+
+
+def life_histories(rng, n_random):
+    """systematic short histories around a slot that is used a second time, then random longer ones"""
+    plain = P["BASIC"] | P["CHAT"] | P["PAGE"] | P["POST"] | P["LOGINOK"]
+    restr = [(0, P["SYSOP"]), (B["OVER18"], 0), (0, FREE_PERM[3]), (B["OVER18"], P["BM"] | FREE_PERM[5]), (B["HIDE"], 0), (0, 0), (B["POSTMASK"], P["SYSOP"])]
+    hs = []
+
+    def ask(n, lvl=None):
+        return [[4, n, u, plain if lvl is None else lvl, 0] for u in range(len(LIFE_POOL))]
+    # (a) board A (moderators old) removed, board B (moderators new) created next: every restriction x moderator change
+    for attr, level in restr:
+        for old, new in (([0], [2]), ([0, 1], []), ([], [3]), ([1, 2, 3, 0], [0]), ([2], [2]), ([0], [1, 0])):
+            for reload_between in (False, True):
+                h = [[1, 0, attr, level] + old] + ask(0) + [[2, 0]] + ([[3]] if reload_between else []) + [[1, 1, attr, level] + new] + ask(1)
+                hs.append(h)
+    # (b) the same name again, append path only, two free slots, a name that exists
+    hs.append([[1, 0, 0, P["SYSOP"], 0], [2, 0], [1, 0, 0, P["SYSOP"], 1]] + ask(0))
+    hs.append([[1, 0, 0, P["SYSOP"], 0], [1, 1, 0, P["SYSOP"], 1]] + ask(0) + ask(1))
+    hs.append([[1, 0, 0, P["SYSOP"], 0], [1, 1, 0, P["SYSOP"], 1], [1, 2, B["OVER18"], 0, 2], [2, 0], [2, 1], [1, 3, 0, P["SYSOP"], 3], [1, 4, B["OVER18"], 0]] + ask(3) + ask(4) + ask(2))
+    hs.append([[1, 0, 0, P["SYSOP"], 0], [1, 0, 0, 0, 1], [2, 5]] + ask(0) + ask(5))
+    # (c) random histories
+    ulevels = [plain, plain, plain & ~P["LOGINOK"], plain | P["BOARD"], plain | P["BM"], plain | P["POLICE"], plain | P["SYSOP"], P["POST"]]
+    for _ in range(n_random):
+        h, live, free = [], set(), 0
+        for _ in range(rng.randrange(4, 11)):
+            x = rng.random()
+            if x < 0.45 or not live:
+                n = rng.randrange(LIFE_BOARDS) if rng.random() < 0.1 else rng.choice([k for k in range(LIFE_BOARDS) if k not in live] or [0])
+                attr, level = rng.choice(restr)
+                if rng.random() < 0.3:
+                    attr |= subset(rng, FREE_ATTR, 0.1)
+                if level and rng.random() < 0.3:
+                    level |= rng.choice(FREE_PERM)
+                ms = rng.sample(range(len(LIFE_POOL)), rng.choice([0, 1, 1, 2, 3, 4]))
+                h.append([1, n, attr, level] + ms)
+                if n not in live:
+                    live.add(n)
+                    free = max(0, free - 1)
+                qs = [n]
+            elif x < 0.8:
+                n = rng.randrange(LIFE_BOARDS) if rng.random() < 0.1 else rng.choice(sorted(live))
+                h.append([2, n])
+                if n in live:
+                    live.discard(n)
+                    free += 1
+                qs = rng.sample(sorted(live), min(len(live), 1))
+            else:
+                h.append([3])
+                qs = rng.sample(sorted(live), min(len(live), 2))
+            for n in qs:
+                for u in range(len(LIFE_POOL)):
+                    ul = rng.choice(ulevels)
+                    if rng.random() < 0.3:
+                        ul |= rng.choice(FREE_PERM)
+                    h.append([4, n, u, ul, rng.randrange(2)])
+        hs.append(h)
+    return hs
+
+
 # build configurations of the repository: (number on the wire, name, go build tags, driver name)
 BUILDS = [(0, "default", "verif", "implrun"), (1, "docker", "verif docker", "implrun_docker")]
 DOCKER_NOTE = "production build: go build -tags docker (driver build/implrun_docker, built with -tags 'verif docker')"
@@ -302,9 +426,9 @@ def main():
     model = vf.build_model("C07") if model_ok else None
     vf.ipc_cleanup()
 
-    def run_impl_par(lines, workers=12, exe=None):
+    def run_impl_par(lines, workers=12, exe=None, par_min=2000):
         exe = exe or impl
-        if len(lines) < 2000:
+        if len(lines) < par_min:
             return vf.run_impl(exe, "C07", lines)
         n = (len(lines) + workers - 1) // workers
         chunks = [lines[k:k + n] for k in range(0, len(lines), n)]
@@ -734,6 +858,62 @@ def main():
         k_s = next((k for k, m_ in enumerate(meta7) if m_[6] == 1 and len(m_[9]) >= 8 and not spec_may_list(m_[0])), 0)
         c.sample({"row": l7[k_s], "impl": o7[k_s], "legend": "class listing: status | ptt.LoadClassBoards, bbs.LoadClassBoards, ptt.LoadFullClassBoards, bbs.LoadFullClassBoards (code n (bid title attr)*) | stored chain"})
 
+    # ---------------------------------------------------------------- board life cycle: a slot of .BRD used again
+    # "Moderator of that board" comes from a cache the segment keeps per board slot. The cases above plant it; here it is
+    # what the code's own operations leave behind: histories of ptt.NewBoard (free slot or append), removal (record blanked,
+    # boards reloaded), reload, all in one process, with every pool user asking every entry point in between. The answer to
+    # a query must be the rule applied to the caller and to the header the board has now (check's own reference), on both builds.
+    histories = life_histories(rng, 4000 if thorough else 500)
+    l11 = [life_line(h) for h in histories]
+    refs11 = [life_reference(h) for h in histories]
+
+    def judge_life(build, o11):
+        where = "" if build == "default" else " [%s build, -tags docker]" % build
+        bkey = () if build == "default" else (build,)
+        worst = {}                                       # key -> (line length, description, replay)
+        life_cov = {"queries on a board in a slot used before": 0, "queries on a board in a fresh slot": 0, "queries by a former moderator of a removed board": 0}
+        for h, line, o, (want, meta) in zip(histories, l11, o11, refs11):
+            f = o.split()
+            c.nontrivial(bkey + ("life", line))
+            rep = brep(build, {"cases": [line], "expected": " ".join(want), "got": o, "legend": LIFE_LEGEND})
+            if f[:1] != ["0"] or len(f) != len(want):
+                c.violation(at(build, "entry-point-crash"), "a history of board creations / removals crashed, stalled or was refused%s: %s -> %s" % (where, line, o[:200]), rep)
+                continue
+            for k, (got, exp, m) in enumerate(zip(f, want, meta)):
+                if m and len(m) == 3 and build == "default" and m[0] == LIFE_EPS[0]:
+                    life_cov["queries on a board in a slot used before" if m[2]["slot_reused"] else "queries on a board in a fresh slot"] += 1
+                    life_cov["queries by a former moderator of a removed board"] += int(m[2]["moderated_a_removed_board"])
+                if got == exp:
+                    continue
+                if m is None or m[0] in ("step", "found", "absent"):
+                    key, desc = "life-cycle:step", "step %s of a history answers %s where %s is due (token %d)" % (m[1] if m else "-", got, exp, k)
+                else:
+                    name, st, info = m
+                    who = "pool user %d (%s; level word %d)" % (info["user"], LIFE_POOL[info["user"]], st[3])
+                    rel = ("one of its own moderators" if info["own_moderator"] else "not among its moderators") + \
+                          ("; moderator of a board removed earlier in the history" if info["moderated_a_removed_board"] else "")
+                    key = "life-cycle:" + name
+                    desc = ("%s answers %s where the rule, applied to the caller and to the header the board has now, says %s: board vfb%d (moderators %s, attr %d, level %d, in a slot %s) asked by %s - %s"
+                            % (name, got, exp, info["board"], [LIFE_POOL[x] for x in info["moderators"]], info["attr"], info["level"],
+                               "another board was in before" if info["slot_reused"] else "no board was in before", who, rel))
+                if key not in worst or len(line) < worst[key][0]:
+                    worst[key] = (len(line), desc, rep)
+        for key, (_, desc, rep) in sorted(worst.items()):
+            c.violation(at(build, key), desc + where + "; history " + rep["cases"][0], rep)
+        return life_cov
+
+    o11 = run_impl_par(l11, workers=8, par_min=40)
+    c.count(sum(len(w) - 1 for w, _ in refs11), "board life cycle: steps and (query x 10 entry points) of %d histories" % len(l11))
+    if model:
+        vf.correspond(c, "board life cycle (histories of NewBoard / removal / reload)", l11, o11, vf.run_model(model, l11))
+    c.cov["distribution"].update(judge_life("default", o11))
+    o11d = run_impl_par(l11, workers=8, exe=impl_docker, par_min=40)
+    c.count(sum(len(w) - 1 for w, _ in refs11), "board life cycle, -tags docker build")
+    if model:
+        vf.correspond(c, "board life cycle, -tags docker build", l11, o11d, vf.run_model(model, l11))
+    judge_life("docker", o11d)
+    c.sample({"row": l11[0], "impl": o11[0], "legend": LIFE_LEGEND})
+
     # ---------------------------------------------------------------- inconsistent (bid, name) pair and the caller-less helper
     probe = [t for (r, t, _, g) in table[:n_consistent] if not g]
     probe = rng.sample(probe, 8000 if thorough else 2000)
@@ -778,9 +958,17 @@ def main():
                   "of every class, one in rotation for the others; children: a random subset of the 7 planted kinds and the fixture's classes; the row's board a class or link in 9 of 10); "
                   "the whole table (op 9), the listing cases, the class-listing cases and the content cases on 8 of the 32 contents run a second time on the driver built "
                   "with -tags 'verif docker' (the production configuration) under the same predicates; "
-                  "a case is non-trivial if it is a distinct (build) x (row, group flag) / (content, row) / (listing variant, row) / (class tree shape, row)",
+                  "plus board life-cycle histories (op 11) on both builds: 88 systematic ones (board A with moderators removed, board B created next: 7 restrictions x 6 moderator changes x with / without reload; "
+                  "same name again; append only; two free slots; existing name) and 500 (thorough 4000) drawn from PRNG(seed) (4-10 operations create / remove / reload over 10 names, 0-4 moderators of a pool of 4, "
+                  "4 queries after each operation with user levels drawn from 8 kinds); "
+                  "a case is non-trivial if it is a distinct (build) x (row, group flag) / (content, row) / (listing variant, row) / (class tree shape, row) / (history)",
              assumptions=["the caller's uid is a valid logged-in uid (what every API handler derives from the token); uid 0 / -1 are not rows of the table",
-                          "friend list and moderator cache are planted directly (file `visable` reloaded by the code itself; BMCache written into the segment) — how they are built is C12",
+                          "decision table, content, listing and class cases: friend list and moderator cache are planted directly (file `visable` reloaded by the code itself; BMCache written into the segment) — how the BM field is parsed is C12",
+                          "board life cycle (op 11): the moderator cache is NOT planted, it is what ptt.NewBoard -> cache.ResetBoard and cache.ReloadBCache leave in one process; removal of a board and a reload are reproduced as the C "
+                          "administration tools leave the files (blank .BRD record, board directory removed, ReloadBCache) because go-pttbbs has no board removal; every history starts from the fixture's .BRD with the moderator caches of the "
+                          "slots behind it zeroed (a fresh segment); moderators are 0-4 ids of 4 fixture users none of which is a substring of another; boards are created by a caller with PERM_BOARD (NewBoard then keeps the level; a hidden "
+                          "board is created without restricted mask, so friend lists of reused slots cannot matter); what is THEOREM is the invariant / the answers of the history model (C07_life_cycle), what is VALIDATION is that the code "
+                          "behaves like the model's steps (the histories run, both builds); other processes attached to the segment while a board is created are not run",
                           "listing paging (nBoards + 1, next cursor) is C11; here every listing is requested unpaged",
                           "build configurations: the repository has two (ptttype/00-config-default.go, ptttype/01-config-docker.go = -tags docker; the tags dev / production "
                           "select no configuration file at this commit); the docker driver runs on the same small fixture (.PASSWDS / .BRD of ptt/testcase) inside a segment of the "
